@@ -117,6 +117,7 @@ def run(chk):
                 ya = U.Quantity(np.array([float(F(*b["m"]))] * 3), qr.mkq(U, b, float).units)
             sy3 = qr.snapshot(ya)
             idm = id(xa.magnitude)
+            xa.dimensionality                      # an earlier question about the target must not stick to it
             try:
                 with np.errstate(all="ignore"):
                     xr = qr.INPLACE[op](xa, ya)
@@ -132,6 +133,9 @@ def run(chk):
                 chk.diverge(dict(sig0, clause="result", form="ndarray-inplace", observed=g["k"]), dict(case, observed=g))
             if qr.snapshot(ya) != sy3:
                 chk.diverge(dict(sig0, clause="operands-unchanged", form="ndarray-inplace"), case)
+            if g["k"] == "ok" and (dict(xr.dimensionality) != dict(U.get_dimensionality(xr.units)) or not xr.is_compatible_with(xr.units)):
+                chk.diverge(dict(sig0, clause="inplace-target-inconsistent", form="ndarray-inplace"),
+                            dict(case, units=str(xr.units), dimensionality=str(xr.dimensionality)))
         # plain (not in-place) operators on ndarray magnitudes: no operand is touched, and applying the operator again gives the same
         if op in qr.BIN and not a["num"] and not b["num"]:
             U = ureg[float]
